@@ -130,6 +130,9 @@ def materialize(c, st, v):
         return st.alloc(c, PyDict({k: materialize(c, st, x) for k, x in v.items()}))
     if isinstance(v, tuple):
         return tuple(materialize(c, st, x) for x in v)
+    if type(v).__name__ == 'AbsObj':
+        v.attrs = {k: materialize(c, st, x) for k, x in v.attrs.items()}
+        return v
     return v
 
 
